@@ -226,6 +226,63 @@ def run(ctx):
     with ctx.rule("C13.R8", "T5", "named arguments are passed in their parameters' positions (no two flags or ids change places at a call site)", floor=5) as r:
         named_argument_rule(ctx, r, [("swimos_rocks_store", "swimos_rocks_store::"), ("swimos_server_app", "in_memory_store")], allow={})
 
+    with ctx.rule("C13.R9", "T5", "in-memory store: every NodePersistence method works on the entry of its own id (and key) in the collection of its own kind", floor=14) as r:
+        sa = ctx.crate(SA)
+        ADT = "in_memory_store::InMemoryNodePersistence"
+        V, M = "self.state.values", "self.state.maps"
+        # method -> (collection of its kind, first access, the other kind's collection)
+        T = {"get_value": (V, "get", M), "put_value": (V, "entry", M), "delete_value": (V, "remove", M),
+             "update_map": (M, "entry", V), "remove_map": (M, "get_mut", V), "clear_map": (M, "remove", V), "read_map": (M, "get", V)}
+        MUT = ("insert", "remove", "clear", "entry", "get_mut", "extend", "extend_from_slice", "retain", "drain", "push", "append")
+        for m, (own, first, other) in sorted(T.items()):
+            b = ctx.saw(sa.fn(name=m, self_adt=ADT))
+            acc = [c for c in b.calls if c.args and describe_operand(b, c.args[0]) == own]
+            r.check(len(acc) >= 1 and acc[0].name == first and len(acc[0].args) > 1 and describe_operand(b, acc[0].args[1]) == "id", "%s/own-entry" % m, acc[0].loc() if acc else where(b),
+                    "%s works on %s.%s(id)" % (m, own.split(".")[-1], first), "%s accesses %s" % (m, [(c.name, [describe_operand(b, a)[:30] for a in c.args]) for c in acc][:3]))
+            # every further access of that collection uses the same id
+            r.check(all(describe_operand(b, c.args[1]) == "id" for c in acc if len(c.args) > 1), "%s/own-id-everywhere" % m, where(b), "every access of %s is keyed by the method's id" % own.split(".")[-1],
+                    "%s reaches an entry of another item: %s" % (m, [describe_operand(b, c.args[1])[:30] for c in acc if len(c.args) > 1]))
+            oth = [c for c in b.calls if c.args and describe_operand(b, c.args[0]).startswith(other)]
+            r.check(all(c.name == "contains_key" and describe_operand(b, c.args[1]) == "id" for c in oth), "%s/other-kind-only-queried" % m, where(b), "the collection of the other kind is only asked whether it holds this id",
+                    "%s touches %s with %s" % (m, other.split(".")[-1], [c.name for c in oth]))
+            # an existing byte vector that is re-used is emptied first (whole-value replacement)
+            for c in b.calls:
+                if c.name in ("extend_from_slice", "extend", "put", "put_slice", "push") and (c.self_adt or "").endswith("vec::Vec") and "get_mut(" in describe_operand(b, c.args[0]):
+                    tgt = describe_operand(b, c.args[0])
+                    cl = [x for x in b.calls if x.name == "clear" and describe_operand(b, x.args[0]) == tgt and b.dominates(x.block, c.block)]
+                    r.check(bool(cl) and describe_operand(b, c.args[1]) == "value", "%s/stored-bytes-replaced-by-value" % m, c.loc(), "the stored bytes are cleared and then filled from `value`",
+                            "%s extends the stored bytes with %s without emptying them first: the new value is appended to the old one" % (m, describe_operand(b, c.args[1])[:30]))
+            ins = [c for c in b.calls if c.name == "insert" and ("Entry" in (c.self_adt or "") or "BTreeMap" in (c.self_adt or ""))]
+            for c in ins:
+                ds = [describe_operand(b, a) for a in c.args[1:]]
+                want = ["to_vec(value)"] if m == "put_value" else None
+                if m == "update_map":
+                    want = ["to_vec(key)", "to_vec(value)"] if "BTreeMap" in (c.self_adt or "") else None
+                    if want is None:
+                        r.check("tuple(to_vec(key), to_vec(value))" in ds[0], "update_map/first-entry=(key,value)", c.loc(), "a new map starts with the entry (key, value)", "a new map starts with %s" % ds[0][:80])
+                        continue
+                if want is not None:
+                    r.check(ds == want, "%s/stores-%s" % (m, "+".join(x[7:-1] for x in want)), c.loc(), "insert(%s)" % ", ".join(ds), "%s inserts %s (expected %s)" % (m, ds, want))
+        rmv = sa.fn(name="remove_map", self_adt=ADT)
+        rc = [c for c in rmv.calls if c.name == "remove" and "BTreeMap" in (c.self_adt or "")]
+        r.check(len(rc) == 1 and describe_operand(rmv, rc[0].args[1]) == "key", "remove_map/removes-key", rc[0].loc() if rc else where(rmv), "remove_map removes exactly `key` from the item's map")
+        rdm = sa.fn(name="read_map", self_adt=ADT)
+        it = [c for c in rdm.calls if c.name == "iter" and "BTreeMap" in (c.self_adt or "")]
+        r.check(len(it) == 1 and describe_operand(rdm, it[0].args[0]).startswith("get(self.state.maps, id)"), "read_map/iterates-own-map", it[0].loc() if it else where(rdm), "read_map iterates the item's own map")
+        gv = sa.fn(name="get_value", self_adt=ADT)
+        pt = [c for c in gv.calls if c.name in ("put", "put_slice", "extend_from_slice") and describe_operand(gv, c.args[0]) == "buffer"]
+        r.check(len(pt) == 1 and describe_operand(gv, pt[0].args[1]).startswith("get(self.state.values, id)<Some>.0"), "get_value/copies-own-bytes", pt[0].loc() if pt else where(gv), "get_value copies the item's own bytes into the buffer")
+        # ids: a known name keeps its id, an unknown one gets the counter's value and the counter moves on
+        ids = ctx.saw(sa.fn(name="id_for", self_adt="in_memory_store::Ids"))
+        ins = [c for c in ids.calls if c.name == "insert" and "HashMap" in (c.self_adt or "")]
+        incs = [(i, describe_rvalue(ids, rv)) for i, j, p_, rv, line in ids.assigns() if describe_place(ids, p_).endswith("counter") and "Add" in describe_rvalue(ids, rv)]
+        g = dom_guards(ids, ins[0].block) if ins else []
+        r.check(len(ins) == 1 and any(d.startswith("disc(get(") and l == "None" for d, l, _ in g) and len(incs) == 1 and ", 1)" in incs[0][1] and ids.dominates(incs[0][0], ins[0].block) or (len(ins) == 1 and len(incs) == 1 and ids.dominates(ins[0].block, incs[0][0])),
+                "Ids::id_for/fresh-id-per-new-name", ins[0].loc() if ins else where(ids), "an unknown name is mapped to the counter's value and the counter is incremented; a known name keeps its id",
+                "Ids::id_for: inserts %d, counter increments %s" % (len(ins), incs))
+        idd = describe_operand(ids, ins[0].args[2]) if ins else ""
+        r.check("counter" in idd and "Add" not in idd or idd == "id", "Ids::id_for/stores-the-returned-id", ins[0].loc() if ins else where(ids), "the id stored for the name is the one returned (%s)" % idd[:40])
+
 
 def _format_pieces(body):
     """The template of the (single) format_args! in a body. rustc lowers the template to a byte string:
